@@ -4,6 +4,7 @@ import NfpmModel.Lemmas.TarLemmas
 import NfpmModel.Lemmas.PaxLemmas
 import NfpmModel.Lemmas.CpioLemmas
 import NfpmModel.Lemmas.RpmHdrLemmas
+import NfpmModel.Lemmas.PackageLemmas
 import NfpmModel.Digest
 import NfpmModel.Props.C05
 import NfpmModel.Generated.G8WriteTgz
@@ -338,6 +339,27 @@ theorem rpm_file_roundtrip (nv : Bytes) (sig hdr : List RpmHdr.Entry) (payload :
   refine ⟨RpmHdr.readFile_file nv sig hdr payload hs hh h0 hl, ?_⟩
   unfold RpmHdr.pad8; omega
 
+/-- **the region the rpm digests and signatures cover**: the bytes the reader locates as the main header (offset and
+    length it reports) are exactly the header structure that was written, and what follows them is exactly the
+    payload – so "header SHA-256 / header signature over the header as shipped" and "payload digest over the
+    payload as shipped" (C03, C10) speak about well-defined, disjoint regions of the file -/
+theorem rpm_header_region (nv : Bytes) (sig hdr : List RpmHdr.Entry) (payload : Bytes) :
+    let off := 96 + (RpmHdr.header 62 sig).length + RpmHdr.pad8 (RpmHdr.header 62 sig).length
+    ((RpmHdr.file nv sig hdr payload).drop off).take (RpmHdr.header 63 hdr).length = RpmHdr.header 63 hdr
+    ∧ (RpmHdr.file nv sig hdr payload).drop (off + (RpmHdr.header 63 hdr).length) = payload := by
+  intro off
+  have hfile : RpmHdr.file nv sig hdr payload
+      = (RpmHdr.lead nv ++ RpmHdr.header 62 sig ++ RpmHdr.zeros (RpmHdr.pad8 (RpmHdr.header 62 sig).length))
+        ++ (RpmHdr.header 63 hdr ++ payload) := by
+    simp [RpmHdr.file, List.append_assoc]
+  have hlen : (RpmHdr.lead nv ++ RpmHdr.header 62 sig ++ RpmHdr.zeros (RpmHdr.pad8 (RpmHdr.header 62 sig).length)).length = off := by
+    simp only [List.length_append, RpmHdr.lead_length, RpmHdr.zeros_length, off]
+  constructor
+  · rw [hfile, List.drop_left' hlen]
+    exact List.take_left' rfl
+  · rw [hfile, ← List.drop_drop, List.drop_left' hlen]
+    exact List.drop_left' rfl
+
 /-- non-vacuity: a name string, an aligned INT32 after an odd-length string, a string array and a binary entry -/
 example : RpmHdr.read (RpmHdr.header 63
     [ { tag := 1000, typ := 6, count := 1, data := b!"pkg" ++ [0] },
@@ -348,6 +370,70 @@ example : RpmHdr.read (RpmHdr.header 63
       { tag := 1009, typ := 4, count := 2, data := [0, 0, 0, 1, 0, 0, 1, 0] },
       { tag := 1117, typ := 8, count := 2, data := b!"a" ++ [0] ++ b!"bc" ++ [0] },
       { tag := 1146, typ := 7, count := 3, data := [1, 2, 3] } ], b!"payload") := by decide +kernel
+
+/-! ### whole packages: the containers composed, read back end to end
+
+  Compression is a parameter of these theorems: any compressor `z` with a decompressor `u` such that
+  `u (z x) = some x` (`Pkg.Inverts`); the compressors themselves are library code and are exercised, not modelled. -/
+
+/-- **deb, end to end**: the ar file of debian-binary, control.tar.gz, data.tar<ext> and an optional signature member
+    is taken apart again – ar reader, decompressors, tar readers – into exactly the control members, the data
+    member name, the data members and the signature member it was assembled from -/
+theorem deb_package_roundtrip (mtime : Int) (zc zd : Bytes → Bytes) (uc ud : Bytes → Option Bytes)
+    (hc : Pkg.Inverts uc zc) (hd : Pkg.Inverts ud zd)
+    (dataName : Bytes) (control data : List Tar.Member) (sig : Option Ar.Member)
+    (hcm : ∀ m ∈ control, Tar.MemberOK m) (hdm : ∀ m ∈ data, Tar.MemberOK m)
+    (hcs : (zc (Tar.archive control)).length < 10 ^ 10)
+    (hds : Ar.MemberOK { name := dataName, body := zd (Tar.archive data) })
+    (hsig : ∀ s ∈ sig, Ar.MemberOK s) :
+    Pkg.readDeb uc ud (Pkg.debFile mtime zc zd dataName control data sig)
+      = some { control := control, dataName := dataName, data := data, sig := sig } :=
+  Pkg.readDeb_debFile mtime zc zd uc ud hc hd dataName control data sig hcm hdm hcs hds hsig
+
+/-- **ipk, end to end**: gzip tar of ./debian-binary, ./control.tar.gz, ./data.tar.gz, each inner archive read back -/
+theorem ipk_package_roundtrip (mtime : Nat) (z : Bytes → Bytes) (u : Bytes → Option Bytes) (hz : Pkg.Inverts u z)
+    (control data : List Tar.Member) (hm : mtime < 8 ^ 11)
+    (hcm : ∀ m ∈ control, Tar.MemberOK m) (hdm : ∀ m ∈ data, Tar.MemberOK m)
+    (hcs : (z (Tar.archive control)).length < 8 ^ 11) (hds : (z (Tar.archive data)).length < 8 ^ 11) :
+    Pkg.readIpk u (Pkg.ipkFile mtime z control data) = some (control, data) :=
+  Pkg.readIpk_ipkFile mtime z u hz control data hm hcm hdm hcs hds
+
+/-- **archlinux, end to end**: one compressed tar stream with extension records -/
+theorem arch_package_roundtrip (z : Bytes → Bytes) (u : Bytes → Option Bytes) (hz : Pkg.Inverts u z) (ms : List Tar.PMember)
+    (hm : ∀ m ∈ ms, PaxOK m) : Pkg.readArch u (Pkg.archFile z ms) = some ms :=
+  Pkg.readArch_archFile z u hz ms (pax_roundtrip ms hm)
+
+/-- **apk, end to end**: what a reader of the concatenated gzip members sees – the signature and control segments
+    cut before their end-of-archive markers, then the complete data tar – is ONE well-formed tar stream whose
+    members are those of the signature (if any), control and data segments, in that order -/
+theorem apk_stream_roundtrip (sig : Option (List Tar.PMember)) (control data : List Tar.PMember)
+    (hm : ∀ m ∈ (sig.getD []) ++ control ++ data, PaxOK m) :
+    Tar.paxRead (Pkg.apkStream sig control data) = some ((sig.getD []) ++ control ++ data) := by
+  apply Pkg.apkStream_reads
+  · intro r hr
+    obtain ⟨m, hmm, hrm⟩ := List.mem_flatMap.mp hr
+    have ok := hm m hmm
+    unfold Tar.expand at hrm
+    split at hrm
+    · simp only [List.mem_singleton] at hrm; subst hrm; exact ok.main
+    · simp only [List.mem_cons, List.mem_nil_iff, or_false] at hrm
+      rcases hrm with rfl | rfl
+      · exact Tar.xMember_ok _ _ ok.main.hdr.nameNul ok.recordsFit
+      · exact ok.main
+  · exact fun m h => (hm m h).logical
+
+/-- **rpm, end to end**: lead, signature header, header and the compressed cpio payload; the reader recovers the lead
+    name, both entry lists and the payload entries in order with running inode numbers -/
+theorem rpm_package_roundtrip (nv : Bytes) (z : Bytes → Bytes) (u : Bytes → Option Bytes) (hz : Pkg.Inverts u z)
+    (sig hdr : List RpmHdr.Entry) (payload : List Cpio.Entry)
+    (hs : RpmHdr.HeaderOK 62 sig) (hh : RpmHdr.HeaderOK 63 hdr) (h0 : (0 : UInt8) ∉ nv) (hl : nv.length ≤ 65)
+    (hp : ∀ e ∈ payload, Cpio.EntryOK e) (hn : 1 + payload.length < 16 ^ 8) :
+    (Pkg.readRpm u (Pkg.rpmFile nv z sig hdr payload)).map (fun r => (r.leadName, r.sig, r.hdr, r.payload))
+      = some (nv, sig, hdr, Cpio.expected 1 payload) :=
+  Pkg.readRpm_rpmFile nv z u hz sig hdr payload hs hh h0 hl hp hn
+
+/-- non-vacuity of the compression parameter: the identity compressor (deb's `none`) has a decompressor -/
+example : Pkg.Inverts some id := fun _ => rfl
 
 /-- **archlinux**: payload first, then .PKGINFO, .MTREE, and .INSTALL iff scripts exist -/
 theorem arch_member_order (payload : List Bytes) (hasScripts : Bool) :
